@@ -247,6 +247,12 @@ class SOpaque(SV):     # a value we do not model (messages, ...)
     ty: Any = "opaque"
 
 
+@dataclass
+class SOpaqueObj(SV):  # an object whose class is not modelled (MultiTensor, callables, tensors): every
+    name: str          # operation on it yields a fresh opaque value (or the type its contract declares)
+    ty: Any = "opaque"
+
+
 def unpack_seq(elem_ty, term) -> SSeq:
     S = seq_sort(sort_of(elem_ty))
     return SSeq(elem_ty, S.len(term), S.arr(term))
